@@ -47,7 +47,164 @@ def solve(constraints, timeout_ms=None):
     return str(r), (s.model() if r == z3.sat else None)
 
 
+# ----------------------------------------------------------------------------- monomial abstraction
+# A polynomial obligation (cross products, norms, unit factors ...) is first tried in linear
+# arithmetic with every non-linear monomial replaced by a fresh variable.  This is a sound
+# abstraction for validity (unsat of the abstraction => unsat of the original); a `sat`
+# answer of the abstraction proves nothing and the original NRA query is run.
+
+
+def _is_num(e):
+    return z3.is_rational_value(e) or z3.is_int_value(e) or z3.is_algebraic_value(e)
+
+
+_MONO = {}      # mono variable name -> list of its atomic factors (z3 terms)
+
+
+def _mono_abstract(e, cache, found):
+    """Bottom-up: replace every non-linear product by a variable named after its (sorted)
+    atomic factors.  Children are abstracted first, so that when a product node is
+    normalised into a sum of monomials (z3 simplify, som) no raw product is left inside
+    an `If` condition (z3's rewriter would turn `x*y >= 0` into a sign analysis and lose
+    the link to the monomial)."""
+    if not z3.is_app(e) or e.num_args() == 0:
+        return e
+    key = e.get_id()
+    if key in cache:
+        return cache[key]
+    k = e.decl().kind()
+    args = [_mono_abstract(c, cache, found) for c in e.children()]
+    try:
+        r = e.decl()(*args)
+    except z3.Z3Exception:
+        r = e
+    if k in (z3.Z3_OP_MUL, z3.Z3_OP_POWER):
+        nonnum = [a for a in args if not _is_num(a)]
+        if k == z3.Z3_OP_POWER or len(nonnum) >= 2:
+            r = _poly(z3.simplify(r, som=True), found)
+    cache[key] = r
+    return r
+
+
+def _factors(a):
+    """Atomic factors of an (already abstracted) multiplicand."""
+    if z3.is_const(a) and a.decl().name() in _MONO:
+        return list(_MONO[a.decl().name()])
+    return [a]
+
+
+def _mk_mono(atoms, found):
+    atoms = sorted(atoms, key=str)
+    name = "mono!" + "*".join(str(a) for a in atoms)
+    _MONO[name] = atoms
+    found.append(name)
+    return z3.Real(name) if atoms[0].sort() == z3.RealSort() else z3.Int(name)
+
+
+def _poly(t, found):
+    if not z3.is_app(t) or t.num_args() == 0:
+        return t
+    k = t.decl().kind()
+    if k == z3.Z3_OP_ADD:
+        parts = [_poly(c, found) for c in t.children()]
+        r = parts[0]
+        for p in parts[1:]:
+            r = r + p
+        return r
+    if k == z3.Z3_OP_UMINUS:
+        return -_poly(t.arg(0), found)
+    if k == z3.Z3_OP_MUL:
+        kids = []
+
+        def flat(x):
+            if z3.is_app(x) and x.decl().kind() == z3.Z3_OP_MUL:
+                for c in x.children():
+                    flat(c)
+            else:
+                kids.append(x)
+        flat(t)
+        nums = [a for a in kids if _is_num(a)]
+        atoms = []
+        for a in kids:
+            if _is_num(a):
+                continue
+            n = _int_power(a)
+            if n is not None:
+                atoms += _factors(a.arg(0)) * n
+            else:
+                atoms += _factors(a)
+        if len(atoms) >= 2:
+            r = _mk_mono(atoms, found)
+        elif atoms:
+            r = atoms[0]
+        else:
+            r = z3.RealVal(1)
+        for n in nums:
+            r = n * r
+        return r
+    if k == z3.Z3_OP_POWER:
+        n = _int_power(t)
+        if n is not None:
+            return _mk_mono(_factors(t.arg(0)) * n, found)
+        return _mk_mono([t, z3.RealVal(1)], found) if False else t
+    return t
+
+
+def _int_power(a):
+    if not (z3.is_app(a) and a.decl().kind() == z3.Z3_OP_POWER):
+        return None
+    ex = a.arg(1)
+    n = None
+    if z3.is_int_value(ex):
+        n = ex.as_long()
+    elif z3.is_rational_value(ex) and ex.denominator_as_long() == 1:
+        n = ex.numerator_as_long()
+    return n if n is not None and 2 <= n <= 8 else None
+
+
+def subst_const(e, var, val, cache=None):
+    """e[var := val] by plain reconstruction (z3.substitute runs the rewriter, which turns
+    `x*y >= 0` into a sign analysis and defeats the monomial abstraction)."""
+    cache = {} if cache is None else cache
+    if not z3.is_app(e):
+        return e
+    if e.num_args() == 0:
+        return val if e.eq(var) else e
+    k = e.get_id()
+    if k in cache:
+        return cache[k]
+    args = [subst_const(c, var, val, cache) for c in e.children()]
+    try:
+        r = e.decl()(*args)
+    except z3.Z3Exception:
+        r = z3.substitute(e, (var, val))
+    cache[k] = r
+    return r
+
+
+def abstract_monomials(constraints):
+    found = []
+    cache = {}
+    return [_mono_abstract(c, cache, found) for c in constraints], found
+
+
 # ----------------------------------------------------------------------------- context
+
+
+def solve_validity(pc, formula, timeout_ms=None):
+    """pc ==> formula ?  ('unsat' = valid).  Polynomial obligations are first tried under the
+    monomial abstraction (LRA); only if that is not conclusive the NRA query is run."""
+    q = list(pc) + [z3.Not(formula)]
+    try:
+        qa, found = abstract_monomials(q)
+    except z3.Z3Exception:
+        found = []
+    if found:
+        STATS["abstracted"] = STATS.get("abstracted", 0) + 1
+        r, _ = solve(qa, timeout_ms)
+        if r == "unsat":
+            return r, None
+    return solve(q, timeout_ms)
 
 
 class Ctx:
@@ -148,7 +305,7 @@ class Ctx:
             if z3.is_true(f):
                 r, m = "unsat", None
             else:
-                r, m = solve(self.pc + [z3.Not(formula)], timeout_ms)
+                r, m = solve_validity(self.pc, formula, timeout_ms)
         rec = {"label": label, "status": r, "info": info}
         if m is not None:
             rec["model"] = m
